@@ -13,6 +13,15 @@ func (c *FnCtx) evalCall(st *State, call *ast.CallExpr) []*Term {
 	if tv, ok := c.info.Types[call.Fun]; ok && tv.IsType() {
 		return []*Term{c.evalConversion(st, call, tv.Type)}
 	}
+	if name := c.callOrd[call]; name != "" && c.contract != nil {
+		if ls := c.contract.Inspects[name]; ls != nil {
+			for k, a := range ls.Asserts {
+				g := c.specEvalAt(st, a.Expr, map[string]*Term{}, c.pre, call)
+				c.oblige(st, "assert", call, fmt.Sprintf("%s.%d", name, k+1), a.Text, g)
+				st.assume(g)
+			}
+		}
+	}
 	fun := ast.Unparen(call.Fun)
 	// strip explicit instantiation
 	switch f := fun.(type) {
